@@ -3,6 +3,7 @@ CONSTANTS
  MaxOps = 10
  MaxSupers = 2
  Thin = 8
+ WithMeth = TRUE
  EmitFrom = 10
 INIT Init
 NEXT Next
